@@ -26,7 +26,7 @@ RULE = ('Generated budgets (1-3 sources with independent settings + a plain prob
         'ranking, a transform or a supplemental query.')
 ASSUMPTIONS = ['sub-check (b) uses rules that depend only on description and amount - the only things `explain` lets the user state',
                'probe descriptions carry a unique token so that explain reaches its description path rather than a merchant/transaction search']
-REQUIRED_CLASSES = ['explain_text', 'explain_description_text', 'discover_text', 'explain_merchant', 'explain_description_matched', 'explain_description_unknown', 'discover_listing', 'tagonly_predecessor', 'variable_or_let',
+REQUIRED_CLASSES = ['case_variant_merchants', 'explain_text', 'explain_description_text', 'discover_text', 'explain_merchant', 'explain_description_matched', 'explain_description_unknown', 'discover_listing', 'tagonly_predecessor', 'variable_or_let',
                     'most_specific', 'transform', 'supplemental_query', 'csv_rules']
 
 UNIQ = ['ZZQX', 'QQPROBE', 'XYZZY7']
@@ -97,7 +97,14 @@ def case(draw):
         words = sorted({w for s_ in b['sources'] for r in s_['rows'] for w in r['desc'].upper().split() if w.isalnum() and len(w) > 2}) or ['NETFLIX']
         extra = [{'name': f'Known {w.title()}', 'match': ['match', 'contains', None, w], 'category': 'Shopping', 'subcategory': 'Online', 'merchant': None, 'priority': None,
                   'tags': [], 'lets': [], 'fields': []} for w in draw(st.lists(st.sampled_from(words), min_size=1, max_size=2, unique=True))]
-        b = dict(b, rf=dict(rf, rules=rf['rules'] + extra))
+        front = []
+        if len(words) >= 2 and draw(st.booleans()):
+            # two merchants whose names differ only in letter case ([Known Uber] / [KNOWN UBER]) are different merchants
+            w0 = extra[0]['match'][3]
+            w2 = draw(st.sampled_from([w for w in words if w != w0]))
+            front = [{'name': extra[0]['name'].upper(), 'match': ['and', [['match', 'contains', None, w2], ['not', ['match', 'contains', None, w0]]]], 'category': 'Bills & Utilities',
+                      'subcategory': 'Upper', 'merchant': None, 'priority': 99, 'tags': [], 'lets': [], 'fields': []}]
+        b = dict(b, rf=dict(rf, rules=front + rf['rules'] + extra))
     if b['rules_kind'] == 'csv':
         # sub-check (b) can only state description and amount: keep amount modifiers only
         b = dict(b, csv=[dict(r, mods=[m for m in r['mods'] if m['k'] == 'amount']) for r in b['csv']])
@@ -184,7 +191,15 @@ def check(c, stats: Stats):
         ctx = f"\n--- rules ({b['rules_kind']}, mode {b['rule_mode']})\n" + (R.render_file(b['rf']) if b['rules_kind'] == 'rules' else bd.read('config/merchant_categories.csv'))
         merchants = {m['name']: m for m in jd['merchants']}
         # ---------- (a) explain <merchant>
-        for name, um in list(merchants.items())[:6]:
+        # merchants whose names differ only in letter case are explained first (they are different merchants)
+        low = {}
+        for n in merchants:
+            low.setdefault(n.lower(), []).append(n)
+        twins = [n for v in low.values() if len(v) > 1 for n in v]
+        if twins:
+            classes.add('case_variant_merchants')
+        order = twins + [n for n in merchants if n not in twins]
+        for name, um in [(n, merchants[n]) for n in order[:8]]:
             if os.path.isdir(name) or name.startswith('-') or not name.strip():
                 continue
             r = cli.run(['explain', '--format', 'json', '-v', name, bd.config], cwd=bd.root)
